@@ -1,13 +1,13 @@
-pub const N: usize = 12;
-pub const INSIDE: usize = 8;        // nodes below this id (and the links 10, 11) live under the root
+pub const N: usize = 13;
+pub const INSIDE: usize = 8;        // nodes below this id (and the links 10, 11, 12) live under the root
 pub const ROOT_DEPTH: u32 = 3;          // the root is /a/b/root
-pub const PARENT: [u8; N] = [0, 0, 0, 1, 1, 4, 4, 0, 255, 8, 0, 0];
-pub const IS_DIR: [bool; N] = [true, true, false, false, true, false, false, false, true, false, false, false];
-pub const IS_LINK: [bool; N] = [false, false, false, false, false, false, true, true, false, false, true, true];
-pub const TARGET: [u8; N] = [0, 0, 0, 0, 0, 0, 1, 8, 0, 0, 2, 255];
-pub const TARGET_RELATIVE: [bool; N] = [false, false, false, false, false, false, false, true, false, false, false, false];
-pub const LEVEL: [u32; N] = [0, 1, 1, 2, 2, 3, 3, 1, 0, 1, 1, 1];
+pub const PARENT: [u8; N] = [0, 0, 0, 1, 1, 4, 4, 0, 255, 8, 0, 0, 4];
+pub const IS_DIR: [bool; N] = [true, true, false, false, true, false, false, false, true, false, false, false, false];
+pub const IS_LINK: [bool; N] = [false, false, false, false, false, false, true, true, false, false, true, true, true];
+pub const TARGET: [u8; N] = [0, 0, 0, 0, 0, 0, 1, 8, 0, 0, 2, 255, 0];
+pub const TARGET_RELATIVE: [bool; N] = [false, false, false, false, false, false, false, true, false, false, false, false, false];
+pub const LEVEL: [u32; N] = [0, 1, 1, 2, 2, 3, 3, 1, 0, 1, 1, 1, 3];
 // canonical depth (number of path separators): the root is /a/b/root, directory 8 is /x/out
-pub const CDEPTH: [u32; N] = [3, 4, 4, 5, 5, 6, 6, 4, 2, 3, 4, 4];
+pub const CDEPTH: [u32; N] = [3, 4, 4, 5, 5, 6, 6, 4, 2, 3, 4, 4, 6];
 /*--*/
-pub static PATHS: [Path; N] = [Path(0, false), Path(1, false), Path(2, false), Path(3, false), Path(4, false), Path(5, false), Path(6, false), Path(7, false), Path(8, false), Path(9, false), Path(10, false), Path(11, false)];
+pub static PATHS: [Path; N] = [Path(0, false), Path(1, false), Path(2, false), Path(3, false), Path(4, false), Path(5, false), Path(6, false), Path(7, false), Path(8, false), Path(9, false), Path(10, false), Path(11, false), Path(12, false)];
